@@ -221,6 +221,8 @@ def drive : List String → String
           | ["sstop", _, _] => some .stop            -- stop() while a broadcast is on its way: for the model, a stop
           | ["bad", i] => i.toNat?.map .occupy      -- a configured port that can never be bound: as if somebody else held it for good
           | ["rel", i] => i.toNat?.map .release
+          | ["zero", _] => some .foreign             -- "configured port i is 0, the system chooses": says how the harness sets the case up
+          | ["as", _] => some .foreign               -- "the ports come in a tuple / set / …": likewise
           | _ => none
       match acts.mapM parse with
       | some as =>
@@ -232,7 +234,9 @@ def drive : List String → String
       if a == "cok" then some .connectOk else if a == "cref" || a == "crefs" || a == "withref" then some .connectRefused
       else if a == "withop" then some (.withBody false) else if a == "op" then some .opOk
       else if a == "opx" || a == "opeof" then some .opRaises else if a == "disc" then some .disconnect else if a == "with" then some (.withBody false)
-      else if a.startsWith "withx" then some (.withBody true) else none     -- withx, withx:TimeoutError, …: whatever the body raises
+      else if a.startsWith "withx" then some (.withBody true)
+      else if a.startsWith "o:" then some .foreign      -- o:cok, o:op, o:disc, …: another client object acts
+      else none     -- withx, withx:TimeoutError, …: whatever the body raises
     match acts.mapM parse with
     | some as =>
       " ".intercalate (goClient clientInit as)
